@@ -265,7 +265,9 @@ Section SEM2.
   Definition json_stage (params : list parser_param) (line : string) (st : pstate) : option pstate :=
     match all_paths params with
     | Some paths =>
-      let ls := map_update (p_labels st) (combine (map pp_label params) (map (json_get line) paths)) in
+      (* an extraction that yields '' (missing path, line that is not JSON) writes no label: the label it would overwrite is kept
+         (since the repair of json-missing-path-overwrites; before it every parameter label was written, '' included) *)
+      let ls := map_update (p_labels st) (filter nonempty_kv (combine (map pp_label params) (map (json_get line) paths))) in
       Some {| p_labels := ls; p_fp := hash_labels ls |}
     | None => None
     end.
